@@ -168,6 +168,8 @@ def classify(case, field, exp):
 SMALL_LEAVES = ["U", "i1", "f3ff0000000000000", "c61", "C[61]", "C[]", "(L)"]
 LEAVES = ["U", "T", "F", "i0", "i1", "i-1", "i7fffffff", "i-80000000", "f3ff0000000000000", "f3fe0000000000000",
           "f8000000000000000", "f0000000000000000", "f41dfffffffc00000", "fc1e0000000000000", "f7ff0000000000000",
+          # whole floats just outside the i32 range (a saturating or wrapping cast makes them equal to MAX / MIN)
+          "f41e0000000000000", "f41e65a0bc0000000", "fc1e0000000200000", "f7e37e43c8800759c", "f41f0000000000000",
           "c61", "c62", "ce9", "c1f600", "b61", "b62", "bff", "s1", "s2", "S[1,2]", "S[1,3]", "S[1,2,3]", "S[2,1]",
           "C[]", "C[61]", "C[62]", "C[61,62]", "C[e9]", "C[61,e9,62]", "C[1f600]",
           "B[]", "B[61]", "B[62]", "B[61,62]", "B[ff]", "(L)"]
